@@ -72,6 +72,7 @@ func vIntRange(name string, lo, hi int) int {
 	return v
 }
 func vDuration(name string) time.Duration { return time.Duration(vNum(name)) }
+func vDurationN(name string, bits int) time.Duration { return time.Duration(vNum(name)) }
 
 func vString(name string, cap int) string {
 	vLoadReplay()
@@ -156,3 +157,5 @@ func vParam(name string, def int) int {
 func vFixMapOrderType(t string) {}
 
 func vNow() int64 { return 0 }
+
+func vNote(s string) { fmt.Println("NOTE:", s) }
